@@ -67,7 +67,7 @@ Definition result_eqb (a b : result) : bool :=
 Definition case_plans (c : case) : list (list call) :=
   match auction_results (c_env c) with
   | Some (winners, all) =>
-      let cands := if Nat.eqb (length winners) 0 || c_unblind_all (c_cfg c) then all else winners in
+      let cands := candidates (c_cfg c) winners all in
       plans_from (e_deadline (c_env c)) cands 0 (e_relays (c_env c))
   | None => []
   end.
